@@ -1,5 +1,5 @@
 """C15 — the configuration page never reveals stored secrets: generators, implementation-side monitor."""
-import os
+import os, re
 import framework as F
 
 HC = None
@@ -47,9 +47,9 @@ def secrets_of(img):
     return out
 
 class C15(F.PropCheck):
-    pid = 'C15'; gen_groups = ['HtmlTemplates']; prop_file = 'Properties_C15'
-    IN = {'CFG': 0, 'CFGB': 1, 'NAME': 2, 'MAC': 3, 'ADD': 4, 'STATE': 5, 'RENDER': 6, 'GET': 7}
-    OUT = {0: 'PAGE', 1: 'PAGEB', 2: 'GETPAGE'}
+    pid = 'C15'; gen_groups = ['HtmlTemplates', 'C14Vars']; prop_file = 'Properties_C15'
+    IN = {'CFG': 0, 'CFGB': 1, 'NAME': 2, 'MAC': 3, 'ADD': 4, 'STATE': 5, 'RENDER': 6, 'GET': 7, 'FORMB': 8, 'FORM': 9}
+    OUT = {0: 'PAGE', 1: 'PAGEB', 2: 'GETPAGE', 3: 'FPAGE', 4: 'FPAGEB', 5: 'FCFG', 6: 'FCFGB'}
     quick_cases = 2000; thorough_cases = 6000
     trusted_extra = ['C15 driver harness/drv/c15.c + harness/wrap/c15_html_wrap.c: the two html sources of /repo compiled under all '
                      'seven variants in one MQTT-configuration binary (SUPLA page with MQTT_SUPPORT_ENABLED undefined, renamed entry points), '
@@ -117,8 +117,58 @@ class C15(F.PropCheck):
             for i in range(eo + k + 1, eo + es): b[i] = rng.getrandbits(8)
         return bytes(b)
 
+    # ---- saved forms: POST through the real handler, then the pages
+    FORM_TEXT = {b'sid': 32, b'wpw': 64, b'svr': 100, b'mvr': 100, b'eml': 256, b'usr': 256, b'pfx': 50}
+    def form_pair(self, rng):
+        """two requests that differ only in the values of wpw / pwd / mwd (same lengths)"""
+        mqtt = rng.random() < 0.5
+        al = b'abcdefghijklmnopqrstuvwxyzABCDEFGHIJKLMNOPQRSTUVWXYZ0123456789'
+        def rs(n): return bytes(rng.choice(al) for _ in range(n))
+        def ln(size):
+            k = rng.random()
+            if k < 0.55: return rng.choice([size - 2, size - 1, size, size + 1])
+            return rng.choice([0, 1, 5, 12, rng.randrange(0, size + 3)])
+        names = [b'sid', b'wpw', b'pro'] + ([b'mvr', b'prt', b'tls', b'mau', b'usr', b'mwd', b'pfx', b'qos', b'ret', b'ppd'] if mqtt else [b'svr', b'eml'])
+        if not mqtt and rng.random() < 0.4: names.append(b'pwd')
+        if rng.random() < 0.3: names += [b'svr', b'eml'] if mqtt else [b'mvr', b'usr', b'pfx']      # fields of the other protocol (ignored or not)
+        names = [n for n in names if rng.random() < 0.9 or n == b'pro']
+        if rng.random() < 0.3: rng.shuffle(names)
+        if b'pro' in names and rng.random() < 0.7: names.remove(b'pro'); names.insert(0, b'pro')
+        names.append(b'rbt')
+        pa, pb = [], []
+        for n in names:
+            if n == b'pro': v = w = b'1' if mqtt else b'0'
+            elif n == b'wpw':
+                L = ln(64); v = rs(L); w = rs(L)
+            elif n in (b'pwd', b'mwd'):
+                L = rng.choice([0, 8, 31, 32, 33, 34, 60, 200, 254, 255, 256, 257, rng.randrange(0, 260)]); v = rs(L); w = rs(L)
+            elif n in self.FORM_TEXT: v = w = rs(ln(self.FORM_TEXT[n]))
+            elif n == b'prt': v = w = str(rng.choice([1883, 8883, 1, 65535])).encode()
+            elif n == b'qos': v = w = rng.choice([b'0', b'1', b'2'])
+            elif n == b'ppd': v = w = str(rng.randrange(0, 200)).encode()
+            elif n == b'rbt': v = w = rng.choice([b'0', b'0', b'0', b'2'])
+            else: v = w = rng.choice([b'0', b'1'])
+            pa.append(n + b'=' + v); pb.append(n + b'=' + w)
+        hdr = b'POST / HTTP/1.1\r\nHost: 192.168.4.1\r\nContent-Type: application/x-www-form-urlencoded\r\n\r\n'
+        return hdr + b'&'.join(pa), hdr + b'&'.join(pb), mqtt
+
+    def gen_form_case(self, rng, cid):
+        a = self.gen_image(rng); b = self.flip_secrets(rng, a)
+        ra, rb, mqtt = self.form_pair(rng)
+        evs = [('CFG', [], a), ('CFGB', [], b), ('NAME', [], BOARD_NAME), ('MAC', [], BOARD_MAC)]
+        if rng.random() < 0.3: evs.append(('STATE', [], self.rstr(rng, rng.randrange(1, 80), 0)))
+        evs += [('FORMB', [], rb), ('FORM', [], ra)]
+        tags = ['saved-form:%s' % ('mqtt' if mqtt else 'supla')]
+        for v in sorted(set(rng.randrange(0, 7) for _ in range(rng.choice([1, 2])))):
+            evs.append(('RENDER', [v, 0], b'')); tags.append('v%d' % v)
+        if rng.random() < 0.5: evs.append(('GET', [], b'')); tags.append('GET')
+        return F.Case(cid, evs, tags)
+
     def gen_cases(self, rng, n, tier):
         cases = []
+        nform = n // 3
+        for i in range(nform): cases.append(self.gen_form_case(rng, '%sf%d' % (tier[0], i)))
+        n = n - nform
         for i in range(n):
             k = rng.random(); tags = []
             if k < 0.8:
@@ -148,34 +198,93 @@ class C15(F.PropCheck):
         return cases
 
     # ---------------- monitor (implementation trace vs. the property; the Coq model is not involved)
+    def unterminated(self, img):
+        c = consts()
+        return [o[4:] for (o, s) in TEXT_FIELDS if len(img) == c['CFG_SIZE'] and 0 not in img[c[o]:c[o] + c[s]]]
+
+    def public_material(self, img, extra):
+        c = consts(); pub = list(extra)
+        g = img[c['OFF_GUID']:c['OFF_GUID'] + c['SZ_GUID']]; pub += [g.hex().upper().encode(), g.hex().encode(), g, BOARD_MAC.hex().upper().encode()]
+        for (o, s) in TEXT_FIELDS:
+            f = img[c[o]:c[o] + c[s]]; k = f.find(b'\0'); pub.append(f if k < 0 else f[:k])
+        for k, v in c.items():
+            if isinstance(v, list) and v and isinstance(v[0], int): pub.append(bytes(x & 255 for x in v))
+        return pub
+
     def monitor(self, case, status, outs):
         v = []
         if status != 'ok':
             return ['implementation crashed (%s) while rendering/sending the page: the page does not fit its buffer or is not terminated' % status]
-        a = b = None
-        for (k, ints, data) in case.evs:
-            if k == 'CFG': a = bytes(data)
-            elif k == 'CFGB': b = bytes(data)
-        pairs = []; last = None
-        for (k, ints, data) in outs:
-            if k not in ('PAGE', 'PAGEB', 'GETPAGE') or len(ints) < 4: continue
+        a = b = None; equiv = False; after_form = False; extra = []; reqb = b''
+        it = iter(outs)
+        def size_checks(k, ints, data, what):
             var, d, alloc, trunc = ints[:4]
             body = bytes(data); j = body.find(b'\r\n\r\n'); html = body[j + 4:] if j >= 0 else body
-            if trunc: v.append('variant %d data_saved=%d: the page needs more room than the %d bytes allocated for it (rendering truncated)' % (var, d, alloc))
-            if alloc >= 0 and len(html) >= alloc: v.append('variant %d: %d page bytes without terminator in a buffer of %d' % (var, len(html), alloc))
-            if k == 'PAGE': last = (var, d, body)
-            elif k == 'PAGEB' and last is not None and last[:2] == (var, d): pairs.append((var, d, last[2], body)); last = None
-        if a is None or b is None or not (py_wf(a) and py_wf(b) and py_low_equiv(a, b)): return v
-        for (var, d, pa, pb) in pairs:
-            if pa != pb:
-                what = ''
-                for (nm, s) in secrets_of(a):
-                    if len(s) >= 8 and s in pa and s not in pb: what = '; it contains %s literally' % nm; break
-                v.append('variant %d data_saved=%d: the page depends on stored secrets (two configurations that differ only in '
-                         'Wi-Fi password / location-MQTT password incl. overflow / AuthKey render differently)%s' % (var, d, what))
+            if trunc: v.append('%s: the page needs more room than the %d bytes allocated for it (rendering truncated)' % (what, alloc))
+            if alloc >= 0 and len(html) >= alloc: v.append('%s: %d page bytes without terminator in a buffer of %d' % (what, len(html), alloc))
+        def differ(what, pa, pb, img):
+            why = ''
+            if img is not None:
+                for (nm, s) in secrets_of(img):
+                    if len(s) >= 8 and s in pa and s not in pb: why = '; it contains %s literally' % nm; break
+                ut = self.unterminated(img)
+                if ut: why += '; stored %s is not NUL-terminated inside its field' % ', '.join(ut)
+            v.append('%s: the page depends on secrets (two configurations%s that differ only in Wi-Fi password / location-MQTT password '
+                     'incl. overflow / AuthKey render differently)%s' % (what, ' and two submitted forms' if after_form else '', why))
+        try:
+            for (k, ints, data) in case.evs:
+                if k == 'CFG': a = bytes(data)
+                elif k == 'CFGB': b = bytes(data)
+                elif k in ('NAME', 'ADD', 'STATE'): extra.append(bytes(data))
+                if k in ('CFG', 'CFGB'):
+                    equiv = a is not None and b is not None and py_wf(a) and py_wf(b) and py_low_equiv(a, b); after_form = False
+                elif k == 'RENDER':
+                    if not (0 <= ints[0] <= 6): continue
+                    (k1, i1, d1) = next(it); (k2, i2, d2) = next(it)
+                    size_checks(k1, i1, d1, 'variant %d data_saved=%d' % (i1[0], i1[1])); size_checks(k2, i2, d2, 'variant %d data_saved=%d' % (i2[0], i2[1]))
+                    if equiv and bytes(d1) != bytes(d2):
+                        differ('variant %d data_saved=%d%s' % (i1[0], i1[1], ' after a saved form' if after_form else ''), bytes(d1), bytes(d2), a)
+                elif k == 'GET':
+                    (k1, i1, d1) = next(it); size_checks(k1, i1, d1, 'GET /')
+                    if after_form and equiv and a is not None:
+                        pub = self.public_material(a, extra)
+                        for (nm, s) in secrets_of(a):
+                            if len(s) >= 8 and s in bytes(d1) and not any(s in p for p in pub):
+                                v.append('GET / after a saved form: the page contains %s%s' % (nm, ''.join('; stored %s is not NUL-terminated inside its field' % u for u in self.unterminated(a)))); break
+                elif k == 'FORMB': reqb = bytes(data)
+                elif k == 'FORM':
+                    mask = lambda r: re.sub(rb'(wpw|pwd|mwd)=[^&]*', lambda m: m.group(1) + b'=' + b'*' * (len(m.group(0)) - 4), r)
+                    equiv = equiv and mask(bytes(data)) == mask(reqb)
+                    (k1, i1, d1) = next(it); (kc1, _, c1) = next(it); (k2, i2, d2) = next(it); (kc2, _, c2) = next(it)
+                    for (kk, ii, dd) in ((k1, i1, d1), (k2, i2, d2)):
+                        if ii[0]: size_checks(kk, [6, 1, ii[1], ii[2]], dd, 'page after the saved form')
+                    after_form = True; a = bytes(c1); b = bytes(c2)
+                    if equiv:
+                        if bytes(d1) != bytes(d2): differ('"Data saved" page after the form', bytes(d1), bytes(d2), a)
+                        elif i1[0]:
+                            pub = self.public_material(a, extra)
+                            for (nm, s) in secrets_of(a):
+                                if len(s) >= 8 and s in bytes(d1) and not any(s in p for p in pub):
+                                    v.append('"Data saved" page after the form contains %s' % nm); break
+        except StopIteration:
+            pass
         return v
 
-    def nontrivial(self, case, io): return any(o[0] in ('PAGE', 'GETPAGE') for o in io[1])
+    def compare(self, case, mo, io):
+        """the stored images (FCFG/FCFGB) are compared without the bytes behind the e-mail terminator: they are secret, never
+        printed, and belong to C14 (which compares them exactly)"""
+        c = consts(); eo, es = c['OFF_EMAIL'], c['SZ_EMAIL']
+        def norm(lines):
+            out = []
+            for (k, i, d) in lines:
+                if k in ('FCFG', 'FCFGB') and len(d) >= eo + es:
+                    d = bytes(d); z = d[eo:eo + es].find(b'\0')
+                    if z >= 0: d = d[:eo + z + 1] + bytes(es - z - 1) + d[eo + es:]
+                out.append((k, i, d))
+            return out
+        return F.PropCheck.compare(self, case, (mo[0], norm(mo[1])), (io[0], norm(io[1])))
+
+    def nontrivial(self, case, io): return any(o[0] in ('PAGE', 'GETPAGE', 'FPAGE') for o in io[1])
     def sample(self, case, io):
         return dict(id=case.id, events=[F.fmt_line(*e)[:100] for e in case.evs[:10]], outputs=[F.fmt_line(*o)[:140] for o in io[1][:4]])
 
